@@ -82,6 +82,19 @@ using FX7 = nl::filter::or_filter<nl::filter::not_filter<T1<R>>, nl::filter::and
 template <typename R>
 using FX8 = nl::filter::not_filter<nl::filter::or_filter<T1<R>, T2<R>>>;
 
+// a user-written filter: the library must hand it the statement's record, tag included
+template <typename R>
+struct Untagged
+{
+    typedef R record_type;
+    bool filter(R& r) const
+    {
+        return r.tag().empty();
+    }
+};
+template <typename R>
+using FX9 = nl::filter::and_filter<T1<R>, Untagged<R>>;
+
 using Seq3 = nl::sink::sequence<RecSink<1>, RecSink<2>, RecSink<3>>;
 using Seq2 = nl::sink::sequence<RecSink<1>, RecSink<2>>;
 using One = RecSink<1>;
@@ -94,6 +107,7 @@ using L5 = nl::logger<Record, RecFormatter, Seq2, FX5>;
 using L6 = nl::logger<Record, RecFormatter, One, FX6>;
 using L7 = nl::logger<Record, RecFormatter, Seq2, FX7>;
 using L8 = nl::logger<Record, RecFormatter, One, FX8>;
+using L9 = nl::logger<Record, RecFormatter, One, FX9>;
 
 template <typename L, int Sev>
 struct Make;
@@ -364,8 +378,11 @@ static J run(const J& c)
     case 7:
         o = Prog<L7>().run(c["steps"]);
         break;
-    default:
+    case 8:
         o = Prog<L8>().run(c["steps"]);
+        break;
+    default:
+        o = Prog<L9>().run(c["steps"]);
         break;
     }
     o.set("outcome", "ok");
